@@ -616,6 +616,44 @@ std::string RunSave(const JVal& scn)
 //   kind "ofailat" / "othrowat" (save): the output stream buffer fails / throws when byte k is written
 // Requires vh_alloc.h in the harness translation unit.
 //-----------------------------------------------------------------------------
+// Recorder for the scope life-cycle hook (BITSERIALIZER_VERIF): fixed storage, no allocation while recording
+//-----------------------------------------------------------------------------
+#if defined(BITSERIALIZER_VERIF)
+struct ScopeEventRec { char kind; const void* a; const void* b; };
+inline ScopeEventRec* ScopeEvents() { static ScopeEventRec recs[8192]; return recs; }
+inline size_t& ScopeEventCount() { static size_t n = 0; return n; }
+inline void ScopeListener(const char* event, const void* object, const void* other)
+{
+	if (ScopeEventCount() < 8192) ScopeEvents()[ScopeEventCount()++] = ScopeEventRec{ event[0] == 'r' ? 'r' : event[0] == 'p' ? 'p' : event[0] == 'm' ? 'm' : event[0] == 'o' ? 'o' : 'c', object, other };
+}
+inline void ScopeRecordStart() { ScopeEventCount() = 0; BitSerializer::Verif::GetScopeEventListener() = &ScopeListener; }
+inline void ScopeRecordStop() { BitSerializer::Verif::GetScopeEventListener() = nullptr; }
+// [["open",id],["move",id,from],["close",id],["park"],["rethrow"]] with small ids in order of first appearance
+inline std::string ScopeEventsJson()
+{
+	std::vector<const void*> ids;
+	auto idOf = [&ids](const void* p) { for (size_t i = 0; i < ids.size(); ++i) if (ids[i] == p) return i + 1; ids.push_back(p); return ids.size(); };
+	auto forget = [&ids](const void* p) { for (auto& q : ids) if (q == p) q = nullptr; };	// an address may be reused by a later object
+	std::string o = "[";
+	for (size_t i = 0; i < ScopeEventCount(); ++i)
+	{
+		const auto& e = ScopeEvents()[i];
+		if (i) o += ',';
+		if (e.kind == 'o') { forget(e.a); o += "[\"open\"," + std::to_string(idOf(e.a)) + "]"; }
+		else if (e.kind == 'm') { const size_t from = idOf(e.b); forget(e.a); o += "[\"move\"," + std::to_string(idOf(e.a)) + "," + std::to_string(from) + "]"; }
+		else if (e.kind == 'c') { o += "[\"close\"," + std::to_string(idOf(e.a)) + "]"; forget(e.a); }
+		else if (e.kind == 'p') o += "[\"park\"]";
+		else o += "[\"rethrow\"]";
+	}
+	return o + "]";
+}
+#else
+inline void ScopeRecordStart() {}
+inline void ScopeRecordStop() {}
+inline std::string ScopeEventsJson() { return "[]"; }
+#endif
+
+//-----------------------------------------------------------------------------
 #ifdef VH_WITH_ALLOC
 template <class TArchive>
 std::string RunFault(const JVal& scn, const std::string& doc, const std::string& kind, long long k)
@@ -643,6 +681,7 @@ std::string RunFault(const JVal& scn, const std::string& doc, const std::string&
 		if (!isSave && streamIn) holder = MakeStream(kind == "failat" || kind == "throwat" ? kind : "short3", doc, static_cast<size_t>(k));
 		if (isSave && streamOut) { obuf = std::make_unique<FailingOutBuf>(kind == "ofailat" || kind == "othrowat" ? static_cast<size_t>(k) : static_cast<size_t>(-1), kind == "othrowat"); ostr = std::make_unique<std::ostream>(obuf.get()); }
 		liveBefore = AllocLive();
+		ScopeRecordStart();
 		AllocArm(kind == "alloc" ? k : -1);
 		try
 		{
@@ -668,6 +707,7 @@ std::string RunFault(const JVal& scn, const std::string& doc, const std::string&
 			AllocDisarm();
 		}
 		catch (...) { allocsInCall = AllocSinceArm(); AllocDisarm(); exc = DescribeException(); }
+		ScopeRecordStop();
 		if (isSave && !ostr) produced = outMem.size();
 		{ std::string().swap(outMem); }
 		liveAfter = AllocLive();
@@ -678,7 +718,7 @@ std::string RunFault(const JVal& scn, const std::string& doc, const std::string&
 	return "{\"kind\":\"" + kind + "\",\"k\":" + std::to_string(k) + ",\"save\":" + (isSave ? "true" : "false") + ",\"exc\":" + exc +
 		",\"leak\":" + std::to_string(liveAfter - liveBefore) + ",\"allocs\":" + std::to_string(allocsInCall) + ",\"produced\":" + std::to_string(produced) +
 		",\"hits\":" + std::to_string(faultHits) + ",\"streambad\":" + (streamBad ? "true" : "false") + ",\"peak\":" + std::to_string(Alloc().peakReq) +
-		",\"ev\":[" + log.ev + "]}";
+		",\"ev\":[" + log.ev + "],\"sc\":" + ScopeEventsJson() + "}";
 }
 #endif
 
